@@ -21,6 +21,13 @@ pub fn run_permit_race(args: &Args, mut out: Out) {
     let loops = args.usize("loops", 6); // accept loops sharing the permit in the trials that are not recorded in full
     safina::timer::start_timer_thread();
     let executor = safina::executor::Executor::new(loops.max(2), 2).unwrap();
+    // the application's logger has stopped (its receiver is gone): whatever the accept loop wants to report on its way out
+    // fails, and that must not keep it from leaving properly
+    let (ls, lr) = std::sync::mpsc::sync_channel::<servlin::log::internal::LogEvent>(1);
+    drop(lr);
+    let _dead_logger = servlin::log::set_global_logger(ls).ok();
+    let _ = take_panics();
+    let mut panicked_trials = 0u64;
     let mut missed = 0u64;
     let mut handled = 0u64;
     let mut stuck = 0u64; // trials in which an accept loop had not left 2 s after the revocation returned
@@ -101,6 +108,13 @@ pub fn run_permit_race(args: &Args, mut out: Out) {
         let recs = servlin::verif::take();
         if miss {
             missed += 1;
+        }
+        let server_panics = servlin_panics(&take_panics());
+        if !server_panics.is_empty() && panicked_trials < 5 {
+            panicked_trials += 1;
+            out.ev(t, "Reset", json!({"max": 1, "clients": nloops, "refill": false}));
+            out.ev(t, "AcceptTaskPanicked", json!({"a": 0, "b": 0, "at": server_panics}));
+            continue;
         }
         if !left {
             out.ev(t, "Reset", json!({"max": 1, "clients": nloops, "refill": false}));
